@@ -12,6 +12,9 @@ PMIN <= PG <= PMAX, QMIN <= QG <= QMAX (A-SOLVE: the interior point solver retur
   * setpoints: PG = sign * p_mw * scaling, QG = sign * q_mvar * scaling;
   * gens: PG = p_mw * scaling, VG = vm_pu, limits min/max -/+ delta; non-controllable gens are fixed: PMIN/PMAX = p_mw -/+ delta and the
     bus voltage limits are vm_pu -/+ delta; ext_grids: VG = vm_pu, bus VM/VA = vm_pu / va_degree, voltage limits vm_pu -/+ delta.
+
+Added later: _check_gen_vm_limits (voltage range of gen buses = intersection of bus and gen limits, run_gen_vm; the pinned code wrote min_vm_pu
+through the wrong mask: repaired) and the DC OPF branch flow limits of opf_setup with the phase-shift offset Pfinj (run_dc_flow_limits).
 """
 from __future__ import annotations
 
